@@ -61,7 +61,7 @@ def caps(ctx):
     for name, qb, sb in (("fold_req", fold, b""), ("rep_req", rep, b""), ("fold_res", req, rfold), ("rep_res", req, rrep)):
         for mode in ("orig", "rand"):
             arr = streams.recut([(">", qb)] + ([("<", sb)] if sb else []), mode, random.Random(ctx.seed))
-            out.append(Scn("caps/%s.%s" % (name, mode), arr, {"cls": "caps", "dump": 0}))
+            out.append(Scn("caps/%s.%s" % (name, mode), arr, {"cls": "caps-fold" if name.startswith("fold") else "caps-rep", "dump": 2}))
     return out
 
 
